@@ -201,7 +201,8 @@ def flavours(tier):
     from ..flavours import flavour as F
     fl = [F(3, "ecdhe_rsa"), F(4, "tls13"), F(3, "rsa"), F(1, "dhe_rsa"), F(4, "tls13", hrr=True), F(3, "ecdhe_rsa", resume="id"),
           F(0, "rsa"), F(3, "ecdhe_rsa", ticket=True, resume="ticket"), F(4, "tls13", resume="psk", tickets13=1),
-          F(3, "srp_sha"), F(3, "ecdhe_ecdsa", reqCert="cert"), F(2, "dhe_dsa"), F(3, "ecdhe_rsa", ticket=True, npn=True)]
+          F(3, "srp_sha"), F(3, "ecdhe_ecdsa", reqCert="cert"), F(2, "dhe_dsa"), F(3, "ecdhe_rsa", ticket=True, npn=True),
+          F(4, "tls13", reqCert="cert"), F(4, "tls13", reqCert="nocert")]
     # endpoints that both support TLS 1.0 - 1.3 (the downgrade-protection scenarios need a version range)
     rng = F(4, "tls13")
     rng["range"] = True
@@ -304,13 +305,14 @@ def attack(job):
         cgen, sgen = sc.gens()
         st, co, so = p.run(cgen, sgen, max_steps=60000)
         both = bool(co.ok and so.ok)
-        applied = (mc if d == "c2s" else ms).applied
+        applied = (mc if d == "c2s" else ms).applied or op is None
         from tlslite.errors import TLSLocalAlert
         from tlslite.constants import AlertDescription
         clocal = AlertDescription.toStr(co.exc.description) if isinstance(co.exc, TLSLocalAlert) else ""
         res = {"ev": "RES", "both": both, "c_out": co.describe(), "s_out": so.describe(), "applied": bool(applied),
                "cSawVer": _sh_version(bytes(p.s2c.dlv_log)), "cLocal": clocal, "shMark": _sh_mark(bytes(p.s2c.sent_log)), "sSentVer": _sh_version(bytes(p.s2c.sent_log)),
-               "bodyTamper": bool(applied and op["kind"] in ("tamper", "rewrite") and tag.get("body", True)),
+               "bodyTamper": bool(applied and op is not None and op["kind"] in ("tamper", "rewrite") and tag.get("body", True)),
+               "control": op is None,
                "c": {}, "s": {}}
         if both:
             res["c"] = c03.view(p.c, "c")
@@ -436,6 +438,11 @@ def run(tier):
                 if not nxt or not nxt[0][2]:
                     continue
             jobs.append((fi, f, d, nplain, {"kind": op, "k": ordinal}, {"fi": fi, "op": op, "msg": tok, "k": ordinal, "dir": d, "body": False}))
+    # the untouched run of every flow: completes on both sides with full agreement (what the tampered runs are measured against)
+    for mi in sorted(fmap):
+        fi, flow = fmap[mi]
+        nplain = {x: sum(1 for m in flow if m[0] == x and m[2]) for x in ("c2s", "s2c")}
+        jobs.append((fi, flavs[fi], "c2s", nplain, None, {"fi": fi, "op": "control", "msg": "-", "k": 0, "dir": "-", "body": False}))
     with Pool(16) as pool:
         outs = pool.map(attack, jobs, chunksize=16)
     traces, tags = [], []
